@@ -154,28 +154,61 @@ pub fn run(args: &Args) -> i32 {
         let path = format!("{}/hulc_tests/tests/casoA/casoa.ctehexml", crate::corpus::REPO);
         if let Ok(text) = std::fs::read_to_string(&path) {
             let extra = "\"MaterialSinUsoVerif\" = MATERIAL\n  TYPE = PROPERTIES\n  THICKNESS = 0.1\n  THICKNESS_CHANGE = YES\n  THICKNESS_MAX = 1\n  THICKNESS_MIN = 0.001\n  CONDUCTIVITY = 0.5\n  DENSITY = 1000\n  SPECIFIC-HEAT = 1000\n  VAPOUR-DIFFUSIVITY-FACTOR = 10\n  NAME = \"MaterialSinUsoVerif\"\n  GROUP = \"Verif\"\n  IMAGE = \"asfalto.bmp\"\n  NAME_CALENER = \"\"\n  LIBRARY = NO\n  UTIL = NO\n  OBSOLETE = NO\n  ..\n";
-            let marker = text.find("= MATERIAL").and_then(|i| text[..i].rfind('\n'));
-            if let Some(pos) = marker {
-                let mut t2 = text.clone();
-                t2.insert_str(pos + 1, extra);
-                let ids = |t: &str| -> Option<Vec<(String, String)>> {
-                    let data = hulc::ctehexml::parse_with_catalog(t).ok()?;
-                    let m = Model::try_from(&data).ok()?;
-                    let mut v = vec![];
-                    for s in &m.spaces { v.push((format!("space:{}", s.name), s.id.to_string())); }
-                    for s in &m.walls { v.push((format!("wall:{}", s.name), s.id.to_string())); }
-                    for s in &m.windows { v.push((format!("window:{}", s.name), s.id.to_string())); }
-                    for s in &m.cons.wallcons { v.push((format!("wallcons:{}", s.name), s.id.to_string())); }
-                    for s in &m.cons.materials { v.push((format!("material:{}", s.name), s.id.to_string())); }
-                    Some(v)
-                };
-                let (a, b) = (ids(&text), ids(&t2));
-                let changed: Vec<String> = match (&a, &b) {
-                    (Some(a), Some(b)) => a.iter().filter(|(n, id)| b.iter().find(|(n2, _)| n2 == n).map_or(true, |(_, id2)| id2 != id)).map(|(n, _)| n.clone()).take(5).collect(),
-                    _ => vec!["conversion failed".into()],
-                };
-                cw.write(json!({"op": "noop", "label": "ids-local:casoA+material", "kind": "ids-local",
-                    "impl": {"converted": a.is_some() && b.is_some(), "elements": a.as_ref().map(|v| v.len()), "changed_ids": changed}}));
+            // a day schedule that carries the name of an existing yearly schedule: names are resolved per kind, so this too is unrelated
+            let year_name = text.lines().find(|l| l.trim_end().ends_with("= SCHEDULE-PD")).and_then(|l| l.trim().strip_prefix('"')).and_then(|r| r.split('"').next()).unwrap_or("").to_string();
+            let day_twin = format!("\"{}\" = DAY-SCHEDULE-PD\n  TYPE  = FRACTION\n  VALUES  = ( 0.5)\n  ..\n", year_name);
+            // … written before the first day schedule, and written after the last yearly schedule of the file
+            // (position of the line end that closes the last yearly schedule block)
+            let after_last_year = text.rfind("= SCHEDULE-PD").and_then(|i| {
+                let mut pos = i;
+                for l in text[i..].split_inclusive('\n') {
+                    pos += l.len();
+                    if l.trim() == ".." {
+                        return Some(pos);
+                    }
+                }
+                None
+            });
+            let variants: Vec<(&str, String, Option<usize>)> = vec![
+                ("material", extra.to_string(), text.find("= MATERIAL").and_then(|i| text[..i].rfind('\n'))),
+                ("day-schedule-named-as-a-yearly-one", day_twin.clone(), text.find("= DAY-SCHEDULE-PD").and_then(|i| text[..i].rfind('\n'))),
+                ("day-schedule-named-as-a-yearly-one-written-after-it", day_twin, after_last_year.map(|i| i - 1)),
+            ];
+            for (tag, block, marker) in variants {
+                if let Some(pos) = marker {
+                    let mut t2 = text.clone();
+                    t2.insert_str(pos + 1, &block);
+                    let ids = |t: &str| -> Option<Vec<(String, String)>> {
+                        let data = hulc::ctehexml::parse_with_catalog(t).ok()?;
+                        let m = Model::try_from(&data).ok()?;
+                        let mut v = vec![];
+                        for s in &m.spaces { v.push((format!("space:{}", s.name), s.id.to_string())); }
+                        for s in &m.walls { v.push((format!("wall:{}", s.name), s.id.to_string())); }
+                        for s in &m.windows { v.push((format!("window:{}", s.name), s.id.to_string())); }
+                        for s in &m.cons.wallcons { v.push((format!("wallcons:{}", s.name), s.id.to_string())); }
+                        for s in &m.cons.materials { v.push((format!("material:{}", s.name), s.id.to_string())); }
+                        for s in &m.cons.wincons { v.push((format!("wincons:{}", s.name), s.id.to_string())); }
+                        for s in &m.cons.glasses { v.push((format!("glass:{}", s.name), s.id.to_string())); }
+                        for s in &m.cons.frames { v.push((format!("frame:{}", s.name), s.id.to_string())); }
+                        for s in &m.loads { v.push((format!("loads:{}", s.name), s.id.to_string())); }
+                        for s in &m.thermostats { v.push((format!("thermostat:{}", s.name), s.id.to_string())); }
+                        for s in &m.schedules.year { v.push((format!("year:{}", s.name), s.id.to_string())); }
+                        for s in &m.schedules.week { v.push((format!("week:{}", s.name), s.id.to_string())); }
+                        // the added day schedule is new: only the day schedules of the intact project are compared (by position of their first name)
+                        for s in &m.schedules.day { v.push((format!("day:{}", s.name), s.id.to_string())); }
+                        // links by id
+                        for s in &m.loads { v.push((format!("loads-people-link:{}", s.name), format!("{:?}", s.people_schedule))); }
+                        for s in &m.schedules.year { v.push((format!("year-weeks:{}", s.name), format!("{:?}", s.values))); }
+                        Some(v)
+                    };
+                    let (a, b) = (ids(&text), ids(&t2));
+                    let changed: Vec<String> = match (&a, &b) {
+                        (Some(a), Some(b)) => a.iter().filter(|(n, id)| b.iter().find(|(n2, id2)| n2 == n && (id2 == id || !n.starts_with("day:"))).map_or(true, |(_, id2)| id2 != id)).map(|(n, _)| n.clone()).take(5).collect(),
+                        _ => vec!["conversion failed".into()],
+                    };
+                    cw.write(json!({"op": "noop", "label": format!("ids-local:casoA+{tag}"), "kind": "ids-local",
+                        "impl": {"converted": a.is_some() && b.is_some(), "elements": a.as_ref().map(|v| v.len()), "changed_ids": changed}}));
+                }
             }
         }
     }
